@@ -37,6 +37,7 @@ M = {
     "fetchflags": {"op": "fetch", "set": "1:*", "items": "(UID FLAGS)"},
     "fetch3": {"op": "fetch", "set": "3", "items": FSUBJ},
     "fetch2": {"op": "fetch", "set": "2", "items": FSUBJ},
+    "fetchall": {"op": "fetch", "set": "1:*", "items": FSUBJ},
     "uidfetch": {"op": "fetch", "set": "1:*", "items": FSUBJ, "uid": True},
     "search": {"op": "search", "key": "UNSEEN"},
     "expunge": {"op": "expunge"},
@@ -84,6 +85,11 @@ def scenarios(tier):
         scn("copy|rename-dst", SEL_AB, A=["copy12"], B=["renother"]),
         scn("select|select-inactive", [], A=["selother"], B=["selother"]),
         scn("copy|expunge", SEL_AB + DEL1, A=["expunge"], B=["copy12"]),
+        # the same races with a peer that reads slowly (the reader's writer.drain() may park after any response)
+        dict(scn("move1|fetchall slow reader", SEL_AB, A=["move1"], B=["fetchall"]), slow=["B"]),
+        dict(scn("expunge|fetchall slow reader", SEL_AB + DEL1, A=["expunge"], B=["fetchall"]), slow=["B"]),
+        dict(scn("expunge|uidfetch slow reader", SEL_AB + DEL1, A=["expunge"], B=["uidfetch"]), slow=["B"]),
+        dict(scn("close|search slow reader", SEL_AB + DEL1, A=["close"], B=["search"]), slow=["B"]),
     ]
     if tier != "quick":
         S += [
